@@ -67,12 +67,19 @@ type respScript struct {
 	flushes  int
 	fault    string // "", or one of faults
 	cutAfter int    // bytes of body delivered before a mid-body fault
+	// defaultTransport: the forwarder is used as constructed (no Transport assigned by the caller)
+	defaultTransport bool
+	// retarget: the state listener wraps a handler that points req.URL at the backend itself
+	// (the README pattern) instead of receiving an already re-targeted request
+	retarget bool
 }
 
 var faults = []string{"refused", "close-before", "rst-before", "partial-head", "garbage-head", "body-close", "body-rst", "never-answer", "client-cancel"}
 
 func genResp(t *rapid.T) *respScript {
 	s := &respScript{}
+	s.defaultTransport = rapid.IntRange(0, 3).Draw(t, "defaultTransport") == 0
+	s.retarget = rapid.IntRange(0, 3).Draw(t, "retarget") == 0
 	s.status = rapid.SampledFrom([]int{200, 200, 201, 202, 204, 206, 226, 301, 304, 400, 404, 418, 451, 500, 502, 503, 504, 599, 600, 799, 999}).Draw(t, "status")
 	for i := rapid.IntRange(0, 8).Draw(t, "nh"); i > 0; i-- {
 		s.headers = append(s.headers, [2]string{rapid.SampledFrom([]string{"X-A", "X-B", "Set-Cookie", "Cache-Control", "Etag", "Content-Type", "X-Long", "Location"}).Draw(t, "hn"), rapid.StringMatching(`[a-zA-Z0-9=;,/]{1,16}`).Draw(t, "hv")})
@@ -102,6 +109,11 @@ func genResp(t *rapid.T) *respScript {
 			s.body[i] = byte('a' + x%26)
 		}
 		s.chunked = rapid.Bool().Draw(t, "chunked")
+		if rapid.IntRange(0, 7).Draw(t, "bigHead") == 0 { // a response head of 80-160 KiB
+			for i := rapid.IntRange(20, 40).Draw(t, "nbig"); i > 0; i-- {
+				s.headers = append(s.headers, [2]string{"X-Long", strings.Repeat("h", 4000) + fmt.Sprint(i)})
+			}
+		}
 		if s.chunked {
 			left := n
 			for left > 0 {
@@ -188,7 +200,11 @@ func (s *respScript) steps() []sim.Step {
 }
 
 func (s *respScript) String() string {
-	return fmt.Sprintf("status=%d headers=%v body=%dB chunked=%v chunks=%d flushes=%d fault=%q cutAfter=%d", s.status, s.headers, len(s.body), s.chunked, len(s.chunks), s.flushes, s.fault, s.cutAfter)
+	hs := fmt.Sprint(s.headers)
+	if len(hs) > 300 {
+		hs = hs[:300] + fmt.Sprintf("...(%d headers)", len(s.headers))
+	}
+	return fmt.Sprintf("status=%d headers=%s body=%dB chunked=%v chunks=%d flushes=%d fault=%q cutAfter=%d defaultTransport=%v retarget=%v", s.status, hs, len(s.body), s.chunked, len(s.chunks), s.flushes, s.fault, s.cutAfter, s.defaultTransport, s.retarget)
 }
 
 func headerValues(h [][2]string) map[string][]string {
@@ -236,9 +252,11 @@ func exchange(fatalf func(string, ...any), s *respScript, method string) {
 	}
 	defer tr.CloseIdleConnections()
 	fwd := forward.New(false)
-	fwd.Transport = tr
+	if !(s.defaultTransport && s.fault == "") {
+		fwd.Transport = tr
+	}
 	ev := &events{}
-	h := forward.NewStateListener(fwd, ev.listener)
+	var h http.Handler = forward.NewStateListener(fwd, ev.listener)
 	ctx, cancel := context.WithCancel(context.WithValue(context.Background(), http.ServerContextKey, &http.Server{}))
 	defer cancel()
 	var body io.Reader
@@ -247,7 +265,17 @@ func exchange(fatalf func(string, ...any), s *respScript, method string) {
 	}
 	req := httptest.NewRequest(method, "http://front.example/p?q=1", body).WithContext(ctx)
 	backendURL := "http://" + addr
-	req.URL, _ = url.Parse(backendURL)
+	listenerURL := backendURL
+	if s.retarget {
+		target, _ := url.Parse(backendURL)
+		listenerURL = req.URL.String() // the listener sees the request before it is re-targeted
+		h = forward.NewStateListener(http.HandlerFunc(func(w http.ResponseWriter, r *http.Request) {
+			r.URL = target
+			fwd.ServeHTTP(w, r)
+		}), ev.listener)
+	} else {
+		req.URL, _ = url.Parse(backendURL)
+	}
 	rec := sim.NewRecorder()
 	done := make(chan any, 1)
 	go func() {
@@ -275,7 +303,7 @@ func exchange(fatalf func(string, ...any), s *respScript, method string) {
 	bad := func(f string, a ...any) {
 		fatalf("%s\nscript: %s method=%s client-status=%d client-body=%dB panic=%v", fmt.Sprintf(f, a...), s, method, rec.Status(), len(rec.Body()), panicked)
 	}
-	if msg := checkPaired(ev.take(), backendURL); msg != "" {
+	if msg := checkPaired(ev.take(), listenerURL); msg != "" {
 		bad("%s", msg)
 	}
 	if panicked != nil && panicked != http.ErrAbortHandler {
